@@ -8,6 +8,9 @@ pub mod props;
 
 use engine::{Ctx, Tier};
 
+#[global_allocator]
+static ALLOC: engine::worker::CountingAlloc = engine::worker::CountingAlloc;
+
 fn main() {
     let args: Vec<String> = std::env::args().collect();
     if args.len() < 3 {
